@@ -12,6 +12,12 @@ ROUNDS, FUEL = 14, 60
 
 # ------------------------------------------------------------------ scenario generation
 
+# how a callback fails: e Err(String), f Err(Box<user error type>), p panic!(String), q panic with a &'static str
+# payload, z panic with a payload that is no string (the runtime reports a fixed text, code 998)
+FAIL_KINDS = ["e", "p", "e", "p", "f", "q", "z"]
+UNKNOWN_PANIC = 998
+
+
 def gen_script(rng, me, n, gates, allow_fail=True, rich=True, min_msg=0):
     effs = []
     k = rng.choice([0, 0, 1, 1, 2, 3, 4])
@@ -40,7 +46,7 @@ def gen_script(rng, me, n, gates, allow_fail=True, rich=True, min_msg=0):
             effs.append(("t",))
     fin = ("ok",)
     if allow_fail and rng.random() < 0.18:
-        fin = (rng.choice(["e", "p"]), rng.choice([5, 6, 7]))
+        fin = (rng.choice(FAIL_KINDS), rng.choice([5, 6, 7]))
     return (effs, fin)
 
 
@@ -273,7 +279,7 @@ def gen_fail_with_pending_stop(rng):
     further handler, the supervisor is told ActorFailed (seeded regression C01-3: a 'stop pending'
     fast path after the handler dropped the handler's Err and left through the graceful path)."""
     trivial = ([], ("ok",))
-    fin = (rng.choice(["e", "e", "p"]), rng.choice([5, 6, 7]))
+    fin = (rng.choice(["e", "e", "p", "f", "q", "z"]), rng.choice([5, 6, 7]))
     where = rng.choice(["msg", "msg", "msg", "sup", "ps"])
     inside = rng.random() < 0.5          # the callback itself requests the stop
     req = lambda: rng.choice([("x", 1, None), ("x", 1, 10), ("d", 1)])
@@ -348,7 +354,7 @@ def to_line(sc, mode="send"):
         return f"mode: {mode} | " + to_line(sc)
     acts = " ; ".join(
         f"pre={script_line(a['pre'])} ps={script_line(a['ps'])} stop={script_line(a['stop'])} "
-        f"sup={'def' if a['sup'] is None else script_line(a['sup'])} link={'-' if a['link'] is None else a['link']}"
+        f"sup={('tdef' if a.get('tdef') else 'def') if a['sup'] is None else script_line(a['sup'])} link={'-' if a['link'] is None else a['link']}"
         for a in sc["actors"])
     msgs = " ; ".join(f"{m}={script_line(s)}" for m, s in sorted(sc["msgs"].items()))
     ops = " ; ".join(op_line(o) for o in sc["ops"])
@@ -368,7 +374,8 @@ def eff_coq(e):
 
 def script_coq(s):
     effs, fin = s
-    f = {"ok": "ROk", "e": "RErr", "p": "RPanic"}[fin[0]] + ("" if fin[0] == "ok" else f" {fin[1]}")
+    f = {"ok": "ROk", "e": "RErr", "f": "RErr", "p": "RPanic", "q": "RPanic", "z": "RPanic"}[fin[0]]
+    f += "" if fin[0] == "ok" else (f" {UNKNOWN_PANIC}" if fin[0] == "z" else f" {fin[1]}")
     return "([" + "; ".join(eff_coq(e) for e in effs) + f"], {f})"
 
 
@@ -416,8 +423,52 @@ def ops_coq(sc, mode="send"):
     return "[" + "; ".join(pre + [x for x in (op_coq(o, mode) for o in sc["ops"]) if x]) + "]"
 
 
-def links_only_coq(sc):
-    return "[" + "; ".join(onat(a["link"]) for a in sc["actors"]) + "]"
+def is_tdef(sc, i):
+    return i is not None and i < len(sc["actors"]) and bool(sc["actors"][i].get("tdef")) and sc["actors"][i]["sup"] is None
+
+
+def olink(sc, a):
+    """the spawn-link as the ORACLES see it: a supervisor hosted with the trait's own default
+    handle_supervisor_evt (sup=tdef) logs nothing about what it handles, so the trace oracles cannot
+    speak about its children (the model comparison of the per-actor views does)"""
+    return None if is_tdef(sc, a["link"]) else a["link"]
+
+
+def links_only_coq(sc, true_links=False):
+    """true_links: the real spawn-links, for the settled-trace oracles: a supervisor with the default
+    handler stops itself on a child's terminal event, so "alive and idle at the end with an ended child
+    and no terminal event handled" is wrong for it too, although it logs no handling"""
+    return "[" + "; ".join(onat(a["link"] if true_links else olink(sc, a)) for a in sc["actors"]) + "]"
+
+
+def prep_impl(sc, it):
+    """sup=tdef actors: the default handler's `myself.stop(None)` cannot be logged; the lifecycle
+    recogniser wants a graceful cause before post_stop, so a `TStopReq i None` is put right in front of
+    `TEnter i PostStop` when no stop / drain of i was logged (whether the default handler stopped for the
+    right events is decided by the view comparison with the model, not by this)"""
+    td = [i for i in range(len(sc["actors"])) if is_tdef(sc, i)]
+    if not td:
+        return it
+    tr = parse_term(re.sub(r"\(\*.*?\*\)", "", it))
+    out, graced = [], set()
+    for e in tr:
+        if isinstance(e, tuple) and e[0] in ("TStopReq", "TDrainReq"):
+            graced.add(e[1])
+        if isinstance(e, tuple) and e[0] == "TEnter" and e[2] == "PostStop" and e[1] in td and e[1] not in graced:
+            out.append(("TStopReq", e[1], "None"))
+            graced.add(e[1])
+        out.append(e)
+    return show_term(out)
+
+
+def maybe_tdef(sc, rng, p=0.2):
+    """with probability p every `sup=def` actor of the scenario is hosted by a type that does not override
+    handle_supervisor_evt (engine `sup=tdef`); same model (SupDefault)"""
+    if rng.random() < p:
+        for a in sc["actors"]:
+            if a["sup"] is None:
+                a["tdef"] = True
+    return sc
 
 
 def orders(n, full=False):
@@ -442,7 +493,7 @@ def model_expr(sc, order, local=False, mode="send"):
 def links_coq(sc, mode="send"):
     """the oracle's view of the configuration: `<links> <locals>` (two Coq lists: spawn-links, and
     which actors are thread-local = all of them in the local modes), as check_C04 takes them"""
-    links = "[" + "; ".join(onat(a["link"]) for a in sc["actors"]) + "]"
+    links = "[" + "; ".join(onat(olink(sc, a)) for a in sc["actors"]) + "]"
     locs = "[" + "; ".join(("true" if mode in LOCAL_MODES else "false") for _ in sc["actors"]) + "]"
     return links + " " + locs
 
@@ -453,13 +504,16 @@ OWN = {"TEnter", "TTick", "TPark", "TWake", "TExit", "TCancel", "TAborted"}
 LATE = {"TSpawnRet", "TJoin"}   # logged by harness tasks that observe a JoinHandle: position not determined
 
 
-def per_actor(trace, n):
+def per_actor(trace, n, hide_sup=()):
     """each actor's own callback events, in order (cross-actor order is scheduler-dependent),
-    followed by the sorted results observed through join handles"""
+    followed by the sorted results observed through join handles.
+    hide_sup: actors whose supervision-handler events are left out (sup=tdef: unobservable)"""
     v = {i: [] for i in range(n)}
     late = {i: [] for i in range(n)}
     for e in trace:
         if isinstance(e, tuple) and isinstance(e[1], int) and e[1] in v:
+            if e[1] in hide_sup and e[0] in ("TEnter", "TExit", "TCancel") and isinstance(e[2], tuple) and e[2][0] == "Sup":
+                continue
             if e[0] in OWN:
                 v[e[1]].append(e)
             elif e[0] in LATE:
@@ -539,7 +593,7 @@ def shrink(chk, build, sc, oracle_fn, accept, rounds=25, mode="send"):
         if not vs:
             break
         impl = run_harness(build, "eng_world", [to_line(v, mode) for v in vs], shards=8)
-        exprs = [oracle_fn(len(v["actors"]), links_coq(v, mode), it) for v, it in zip(vs, impl)]
+        exprs = [oracle_fn(len(v["actors"]), links_coq(v, mode), prep_impl(v, it)) for v, it in zip(vs, impl)]
         res = coq_eval(chk.prop + "_shrink", IMPORTS, exprs, scope="nat_scope")
         nxt = None
         for v, r in zip(vs, res):
@@ -579,12 +633,20 @@ def compare_build(chk, scs, build, tag, oracle_fn, accept, what, distinct, mode=
         if m:
             survived[k] = [int(x) for x in m.group(1).split()]
             impl[k] = it[:m.start()].rstrip()
+    # ... and graceful ActorTerminated events whose boxed state was not the subject's final state
+    bad_state = {}
+    for k, it in enumerate(impl):
+        m = re.search(r"\(\* BAD-STATE (.*?) \*\)", it)
+        if m:
+            bad_state[k] = m.group(1)
+            impl[k] = it[:m.start()].rstrip()
+    oimpl = [prep_impl(sc, it) for sc, it in zip(scs, impl)]   # what the trace oracles read
     exprs = []
     with_model = [True for sc in scs]
-    for sc, it, wm in zip(scs, impl, with_model):
+    for sc, it, wm in zip(scs, oimpl, with_model):
         n = len(sc["actors"])
         if wm and complete_fn:
-            lk = links_only_coq(sc)
+            lk = links_only_coq(sc, true_links=True)
             ms = "; ".join(f"(let tm := {model_expr(sc, o, local, mode)} in (tm, {complete_fn(lk, 'tm')}))"
                            for o in orders(n, full=local))
             exprs.append(f"([{ms}], (let ti := {it} in ({oracle_fn(n, links_coq(sc, mode), 'ti')}, {complete_fn(lk, 'ti')})))")
@@ -610,8 +672,17 @@ def compare_build(chk, scs, build, tag, oracle_fn, accept, what, distinct, mode=
             chk.count(pre + "reached." + p)
         for o in sc["ops"]:
             chk.count(pre + "op." + o[0])
-        vi = per_actor(itr, n)
+        hide = {i for i in range(n) if is_tdef(sc, i)}
+        vi = per_actor(itr, n, hide)
         desc = {"scenario": to_line(sc, mode), "impl_trace": it}
+        if idx in bad_state:
+            desc["bad_state"] = bad_state[idx]
+            chk.violation("a graceful ActorTerminated carried a state that is not the subject's final state",
+                          f"{chk.prop}: ActorTerminated(child, Some(state), reason) was handled, and BoxedState::take gave something else than the "
+                          f"child's own state as its last callback left it: {bad_state[idx]} (subject, what arrived)\n"
+                          + json.dumps(desc, indent=1) + f"\nbuild: {tag}" + "\nreplay: echo '<scenario>' | harness/target/debug/eng_world\n",
+                          failing_input=(chk.prop == "C04"))
+            continue
         if idx in survived:
             # kill is immediate (C03): for C03 this is the property itself; for the other checks built on
             # this engine it means the runs are no longer comparable (the correspondence is broken)
@@ -645,7 +716,7 @@ def compare_build(chk, scs, build, tag, oracle_fn, accept, what, distinct, mode=
             continue
         if local:
             chk.count(pre + ("model_compared_linked" if is_linked(sc) else "model_compared_unlinked"))
-        vs = [per_actor(m, n) for m in models]
+        vs = [per_actor(m, n, hide) for m in models]
         v1 = vs[0]
         if icomplete is False:
             # the "at least once" oracle rejects the implementation's trace: which model run is "the same run"?
@@ -841,6 +912,7 @@ def run_loop_check(chk, oracle_fn, focus, what, accept=lambda o: o == "true", co
                 m = c.pop("mode", "send")
                 (scs if m == "send" else lscs[m]).append(c)
     ncorpus = len(scs) + sum(len(v) for v in lscs.values())
+    ncorpus_send, ncorpus_l = len(scs), {m: len(v) for m, v in lscs.items()}
     for k in range(n_cases):
         if k % 40 == 39:
             scs.append(gen_many_children(chk.rng))
@@ -863,6 +935,11 @@ def run_loop_check(chk, oracle_fn, focus, what, accept=lambda o: o == "true", co
     # ... and the remote-shim ones after those
     for k in range(n_remote):
         lscs["remote-shim"].append(gen_remote(chk.rng, k, focus))
+
+    # 1 scenario in 5 (every mode): the `sup=def` actors run the trait's OWN default supervision handler
+    for l in [scs[ncorpus_send:]] + [v[ncorpus_l[m]:] for m, v in lscs.items()]:
+        for sc in l:
+            maybe_tdef(sc, chk.rng)
 
     def norm(l):
         l = json.loads(json.dumps(l))  # normalise tuples to lists
